@@ -3,8 +3,10 @@ package engine
 import (
 	"encoding/base64"
 	"net/http"
+	"runtime"
 	"strings"
 
+	"github.com/zishang520/engine.io-go-parser/packet"
 	"github.com/zishang520/engine.io/v2/config"
 	"github.com/zishang520/engine.io/v2/transports"
 	"github.com/zishang520/engine.io/v2/types"
@@ -301,6 +303,155 @@ func VerifH_C03_slow_callbacks_no_close_cause() {
 		verif.Assert(len(c.closes) == 0 && c.sock.ReadyState() == "open", "without a close cause the session stays open and emits no close event")
 		for _, ex := range c.reqs {
 			verif.Assert(ex.w.writeCalls <= 1, "never two responses")
+		}
+	})
+}
+
+// VerifH_C17_headers_for_every_response: a real polling session (cookie configured) over a
+// script of polls, data requests, a client close packet or a server-side close: the server's
+// 'headers' event fires once for every HTTP response of the session, including the responses
+// written while or after the session closes; 'initial_headers' fires once; only the handshake
+// response carries Set-Cookie.
+func VerifH_C17_headers_for_every_response() {
+	verif.RunTimed(func() {
+		opts := config.DefaultServerOptions()
+		opts.SetCookie(&http.Cookie{Name: "sess", Path: "/p"})
+		c := newPollClient(opts)
+		rec := &evRec{}
+		rec.listen(c.ps, "initial_headers", "headers")
+		c.request("GET", "")
+		if c.sock == nil {
+			return
+		}
+		for step := 0; step < 3; step++ {
+			switch verif.Choose(4) {
+			case 0:
+				c.poll()
+			case 1:
+				c.request("POST", "4hello")
+			case 2:
+				c.request("POST", "1") // the client's close packet
+			case 3:
+				c.sock.Close(false)
+			}
+			verif.Settle()
+		}
+		c.poll()
+		verif.Settle()
+		answered := 0
+		for i, ex := range c.reqs {
+			if ex.answered() && len(ex.w.status) == 1 && ex.w.status[0] == 200 {
+				answered++
+				if i > 0 {
+					verif.Assert(ex.w.hdr.Get("Set-Cookie") == "", "only the handshake response carries Set-Cookie")
+				}
+			}
+		}
+		verif.Assert(strings.HasPrefix(c.reqs[0].w.hdr.Get("Set-Cookie"), "sess="+c.sid), "the handshake response carries the session cookie")
+		verif.Assert(rec.count("initial_headers") == 1, "initial_headers fires once per session")
+		verif.Assert(rec.count("headers") == answered, "headers fires once for every response of the session, also for those written while it closes")
+	})
+}
+
+// VerifH_C12_buffered_data_then_close_any_writer_order: a polling session with data buffered
+// and no poll pending is closed gracefully; the client's next poll arrives.  Whatever order
+// the transport's writer goroutines are scheduled in (a newly started goroutine may run
+// before its creator continues), the buffered data reaches the client before the close
+// packet and the session closes once with 'forced close'.
+func VerifH_C12_buffered_data_then_close_any_writer_order() {
+	if !verif.Symbolic() {
+		runtime.GOMAXPROCS(1) // natively: newest goroutine first is the scheduler's habit on one P
+	}
+	verif.RunTimed(func() {
+		c := newPollClient(config.DefaultServerOptions())
+		c.request("GET", "")
+		if c.sock == nil {
+			return
+		}
+		c.sock.Send(types.NewStringBufferString("buffered"), nil, nil)
+		c.sock.Close(false)
+		verif.Settle()
+		verif.SpawnBudget(2)
+		c.poll()
+		verif.SpawnBudget(0)
+		verif.Settle()
+		for i := 0; i < 2 && len(c.closes) == 0; i++ {
+			c.poll()
+		}
+		verif.Settle()
+		got := c.received()
+		data, closeAt := -1, -1
+		for i, p := range got {
+			if p == "4buffered" && data < 0 {
+				data = i
+			}
+			if p == "1" && closeAt < 0 {
+				closeAt = i
+			}
+		}
+		verif.Assert(data >= 0, "the data buffered before the graceful close reaches the client")
+		verif.Assert(closeAt < 0 || data < closeAt, "before the close packet")
+		verif.Assert(len(c.closes) == 1 && c.closes[0] == "forced close", "the session closes once, with 'forced close'")
+	})
+}
+
+// VerifH_C01_send_races_upgrade_check: a real polling session with a poll pending is probed
+// by an upgrade candidate (which starts the server's 100 ms "release the poll" tick).  The
+// application sends while that tick fires in the middle of the hand-off (a slow 'flush'
+// listener), so the tick's noop takes the pending poll first; then the upgrade completes and
+// the application sends again.  What the client has received (polling responses, then the
+// new transport) is always a prefix of what was sent, and everything if the session is
+// still open -- a message may only be lost together with the session.
+func VerifH_C01_send_races_upgrade_check() {
+	verif.RunTimed(func() {
+		c := newPollClient(config.DefaultServerOptions())
+		c.request("GET", "")
+		if c.sock == nil {
+			return
+		}
+		c.poll() // a poll is pending
+		ctx, _ := newCtx("GET", "/engine.io/")
+		ctx.Query().Set("transport", transports.WEBSOCKET)
+		ctx.Query().Set("EIO", "4")
+		ctx.Query().Set("sid", c.sid)
+		cand := newFakeTransport(transports.WEBSOCKET, ctx)
+		c.sock.MaybeUpgrade(cand)
+		cand.OnPacket(probePing())
+		cand.complete()
+		slow := verif.Bool()
+		fired := false
+		c.sock.On("flush", func(...any) {
+			if slow && !fired {
+				fired = true
+				verif.SleepUntil(verif.Now() + 100e6) // the hand-off takes long enough for the tick to fire
+			}
+		})
+		c.sock.Send(types.NewStringBufferString("m1"), nil, nil)
+		verif.Settle()
+		c.poll()
+		verif.Settle()
+		cand.OnPacket(&packet.Packet{Type: packet.UPGRADE, Data: types.NewStringBufferString("")})
+		verif.Settle()
+		c.sock.Send(types.NewStringBufferString("m2"), nil, nil)
+		verif.Settle()
+		cand.complete()
+		verif.Settle()
+		var got []string
+		got = append(got, msgsOnly(c.received())...)
+		for _, p := range cand.flat() {
+			if p.Type == packet.MESSAGE {
+				got = append(got, "4"+string(readAllOf(p.Data)))
+			}
+		}
+		want := []string{"4m1", "4m2"}
+		verif.Assert(len(got) <= len(want), "nothing is received twice or unsent")
+		for i := range got {
+			if i < len(want) {
+				verif.Assert(got[i] == want[i], "what the client has received is a prefix of what was sent")
+			}
+		}
+		if c.sock.ReadyState() == "open" {
+			verif.Assert(len(got) == len(want), "while the session stays open no accepted message is lost")
 		}
 	})
 }
